@@ -414,10 +414,55 @@ pub fn show_diffs(ds: &[D]) -> String {
 // ---------------------------------------------------------------------------------------------
 // evidence
 
+/// Exact set of 64-bit history hashes, kept as a sorted, deduplicated vector (8 bytes per entry; the
+/// exhaustive sets of the thorough tier insert hundreds of millions of hashes).
+#[derive(Default, Clone)]
+pub struct DistinctSet {
+    v: Vec<u64>,
+    clean: usize,
+}
+
+impl DistinctSet {
+    pub fn insert(&mut self, h: u64) {
+        self.v.push(h);
+        if self.v.len() - self.clean > 4_000_000 && self.v.len() > 2 * self.clean {
+            self.compact();
+        }
+    }
+    pub fn compact(&mut self) {
+        self.v.sort_unstable();
+        self.v.dedup();
+        self.clean = self.v.len();
+    }
+    pub fn extend(&mut self, mut o: DistinctSet) {
+        if self.v.len() < o.v.len() {
+            std::mem::swap(&mut self.v, &mut o.v);
+        }
+        self.v.append(&mut o.v);
+        self.clean = 0;
+        if self.v.len() > 8_000_000 {
+            self.compact();
+        }
+    }
+    /// number of distinct hashes (compacts if necessary)
+    pub fn len(&self) -> usize {
+        if self.clean == self.v.len() {
+            self.v.len()
+        } else {
+            let mut c = self.clone();
+            c.compact();
+            c.v.len()
+        }
+    }
+    pub fn is_empty(&self) -> bool {
+        self.v.is_empty()
+    }
+}
+
 #[derive(Default, Clone)]
 pub struct Ev {
     pub evaluations: u64,
-    pub distinct: HashSet<u64>,
+    pub distinct: DistinctSet,
     pub events: BTreeMap<String, u64>,
     pub samples: Vec<Value>,
     pub exhaustive_scopes: Vec<String>,
